@@ -95,15 +95,6 @@ Included(in, name) == in.filter = <<>> \/ \E i \in DOMAIN in.filter : Contains(n
 ItemT(k, w, t) == [prop |-> "C13", kind |-> k, where |-> w, tags |-> t]
 Item(k, w) == ItemT(k, w, {})
 
-\* Known finding (narrow): in the unmerged DOT a type of the unnamed package is registered
-\* under its bare name ("A1") although its identity in the graph is ".A1"; a supertype that the
-\* model records as the bare, unresolved string "A1" is therefore drawn as an edge to that
-\* type although the graph has no such edge. srcs / dsts: the types the two drawn ends stand for.
-AliasTags(in, srcs, dsts) ==
-  IF ~Merged(in) /\ \E a \in srcs, b \in dsts :
-        b.pkg = <<>> /\ b.name \in (Range(a.impls) \cup {a.ext}) /\ Full(b) \notin Hard(a)
-  THEN {"arch.dot.unnamed-package-bare-supertype"} ELSE {}
-
 EdgeSet(rs) == {<<rs[i][1], rs[i][2]>> : i \in DOMAIN rs}
 Show(e) == e[1] \o " -> " \o e[2]
 
@@ -137,15 +128,21 @@ DotDiff(in, d) ==
                    ELSE IF typeOf(i) = {} THEN "?" ELSE Full(CHOOSE t \in typeOf(i) : TRUE)
       known(i)  == IF Merged(in) THEN Shown(d.nodes[i]) \in QNodes(in) ELSE typeOf(i) # {}
       idxOf(x)  == CHOOSE i \in DOMAIN d.nodes : d.nodes[i].id = x
+      \* the drawn nodes that stand for the graph node called nm
+      drawnFor(nm) == {i \in DOMAIN d.nodes : known(i) /\ nameOf(i) = nm}
   IN  IF ~d.wellformed THEN {Item("dot-malformed", "")} ELSE
       \* "draws an edge only between displayed nodes"
       {Item("dot-edge-to-undisplayed", Show(e)) : e \in {x \in des : x[1] \notin ids \/ x[2] \notin ids}} \cup
       (IF Cardinality(ids) # Len(d.nodes) THEN {Item("dot-node-id-reused", "")} ELSE {}) \cup
       (IF FreeMerge(in) THEN {} ELSE
          \* ... and only edges of the graph (an edge to a filtered-out or external node must be dropped, not re-attached)
-         {ItemT("dot-edge-not-in-graph", Show(e), AliasTags(in, typeOf(idxOf(e[1])), typeOf(idxOf(e[2])))) :
+         {Item("dot-edge-not-in-graph", Show(e)) :
             e \in {x \in des : x[1] \in ids /\ x[2] \in ids /\ known(idxOf(x[1])) /\ known(idxOf(x[2]))
                                /\ <<nameOf(idxOf(x[1])), nameOf(idxOf(x[2]))>> \notin FinalEdges(in)}} \cup
+         \* ... and all of them: the DOT is the graph restricted to the displayed nodes (see Decision_DotInduced)
+         {Item("dot-edge-missing", Show(e)) :
+            e \in {x \in FinalEdges(in) : drawnFor(x[1]) # {} /\ drawnFor(x[2]) # {} /\
+                                           ~\E a \in drawnFor(x[1]), b \in drawnFor(x[2]) : <<d.nodes[a].id, d.nodes[b].id>> \in des}} \cup
          (IF ~Merged(in)
           THEN \* "shows each included type once under its package path"
                {Item("dot-type-missing", Full(t)) : t \in {x \in inc : shownAs(x) = {}}} \cup
@@ -160,8 +157,10 @@ DotDiff(in, d) ==
                   i \in {j \in DOMAIN d.nodes : ~(known(j) /\ Included(in, Shown(d.nodes[j])))}} \cup
                {Item("dot-package-repeated", Shown(d.nodes[i])) :
                   i \in {j \in DOMAIN d.nodes : \E k \in DOMAIN d.nodes : k # j /\ Shown(d.nodes[k]) = Shown(d.nodes[j])}}))
-\* Free_DotEdgeCompleteness: the statement says the DOT "draws an edge only between displayed
-\* nodes"; it does not promise that every edge between two displayed nodes is drawn.
+\* Decision_DotInduced: "draws an edge only between displayed nodes" is read as: the edges drawn
+\* are the edges of the (merged) graph whose two ends are displayed - none that is not an edge of
+\* the graph (an edge to a filtered-out or external node is dropped, not re-attached), and none of
+\* those missing (the title: edges are exactly the type dependencies).
 
 Diff(rec) ==
   LET in == rec.input
